@@ -18,7 +18,7 @@ struct Worker {
 
 pub struct Sess {
     pub out: Out,
-    work: PathBuf,
+    pub work: PathBuf,
     pub dir: PathBuf,
     log: PathBuf,
     log_off: u64,
